@@ -150,7 +150,7 @@ def explore(f, start, stop, feasible_facts=None, count=None):
                 continue
             nf = facts
             if br is not None:
-                cf = cond_facts(f, br[0], idx == 0)
+                cf = cfg.edge_facts(f, b, idx)
                 bad = False
                 for kind, key in cf:
                     if (("nn" if kind == "null" else "null"), key) in facts:
